@@ -201,7 +201,9 @@ def run(ctx):
     # (T) buffer level, random long histories
     nb, ln = (30, 300) if ctx.quick else (300, 1200)
     sizes = [1, 2, 8, 64, 1024] if ctx.quick else [1, 2, 4, 8, 64, 512, 1024, 8192, 32768]
-    run_buf(ctx, [random_buf_script(rng, rng.choice(sizes), ln) for _ in range(nb)], "T-buf-random")
+    # (every tier has the extreme sizes: 32768 is the largest a responder accepts - int16(size) is negative there - and 1 the smallest)
+    run_buf(ctx, [random_buf_script(rng, rng.choice(sizes), ln) for _ in range(nb)] +
+            [random_buf_script(rng, sz, ln) for sz in (32768, 16384, 1, 32768)], "T-buf-random")
     # (G) schedules on the real interceptor
     plans = [(1, 60, 18), (2, 80, 22), (8, 60, 22)] if ctx.quick else [(1, 400, 20), (2, 600, 26), (8, 400, 26), (64, 200, 26)]
     for size, walks, depth in plans:
